@@ -22,9 +22,24 @@ theories/Layout/SpecTheory.vos theories/Layout/SpecTheory.vok theories/Layout/Sp
 theories/Layout/Syntax.vo theories/Layout/Syntax.glob theories/Layout/Syntax.v.beautified theories/Layout/Syntax.required_vo: theories/Layout/Syntax.v 
 theories/Layout/Syntax.vio: theories/Layout/Syntax.v 
 theories/Layout/Syntax.vos theories/Layout/Syntax.vok theories/Layout/Syntax.required_vos: theories/Layout/Syntax.v 
+theories/Model/Api.vo theories/Model/Api.glob theories/Model/Api.v.beautified theories/Model/Api.required_vo: theories/Model/Api.v theories/Base/Bytes.vo theories/Layout/Syntax.vo theories/Gen/Funs.vo theories/Gen/Tables.vo theories/Layout/Sem.vo theories/Model/VersionText.vo
+theories/Model/Api.vio: theories/Model/Api.v theories/Base/Bytes.vio theories/Layout/Syntax.vio theories/Gen/Funs.vio theories/Gen/Tables.vio theories/Layout/Sem.vio theories/Model/VersionText.vio
+theories/Model/Api.vos theories/Model/Api.vok theories/Model/Api.required_vos: theories/Model/Api.v theories/Base/Bytes.vos theories/Layout/Syntax.vos theories/Gen/Funs.vos theories/Gen/Tables.vos theories/Layout/Sem.vos theories/Model/VersionText.vos
+theories/Model/VersionText.vo theories/Model/VersionText.glob theories/Model/VersionText.v.beautified theories/Model/VersionText.required_vo: theories/Model/VersionText.v theories/Gen/Funs.vo
+theories/Model/VersionText.vio: theories/Model/VersionText.v theories/Gen/Funs.vio
+theories/Model/VersionText.vos theories/Model/VersionText.vok theories/Model/VersionText.required_vos: theories/Model/VersionText.v theories/Gen/Funs.vos
 theories/Proofs/C03Proof.vo theories/Proofs/C03Proof.glob theories/Proofs/C03Proof.v.beautified theories/Proofs/C03Proof.required_vo: theories/Proofs/C03Proof.v theories/Base/Bytes.vo theories/Layout/Syntax.vo theories/Gen/Funs.vo theories/Layout/Sem.vo theories/Layout/SpecTheory.vo theories/Layout/Spec.vo theories/Layout/Shapes.vo theories/Gen/Tables.vo
 theories/Proofs/C03Proof.vio: theories/Proofs/C03Proof.v theories/Base/Bytes.vio theories/Layout/Syntax.vio theories/Gen/Funs.vio theories/Layout/Sem.vio theories/Layout/SpecTheory.vio theories/Layout/Spec.vio theories/Layout/Shapes.vio theories/Gen/Tables.vio
 theories/Proofs/C03Proof.vos theories/Proofs/C03Proof.vok theories/Proofs/C03Proof.required_vos: theories/Proofs/C03Proof.v theories/Base/Bytes.vos theories/Layout/Syntax.vos theories/Gen/Funs.vos theories/Layout/Sem.vos theories/Layout/SpecTheory.vos theories/Layout/Spec.vos theories/Layout/Shapes.vos theories/Gen/Tables.vos
+theories/Proofs/C20Proof.vo theories/Proofs/C20Proof.glob theories/Proofs/C20Proof.v.beautified theories/Proofs/C20Proof.required_vo: theories/Proofs/C20Proof.v theories/Gen/Funs.vo theories/Model/VersionText.vo
+theories/Proofs/C20Proof.vio: theories/Proofs/C20Proof.v theories/Gen/Funs.vio theories/Model/VersionText.vio
+theories/Proofs/C20Proof.vos theories/Proofs/C20Proof.vok theories/Proofs/C20Proof.required_vos: theories/Proofs/C20Proof.v theories/Gen/Funs.vos theories/Model/VersionText.vos
 theories/Properties/C03.vo theories/Properties/C03.glob theories/Properties/C03.v.beautified theories/Properties/C03.required_vo: theories/Properties/C03.v theories/Base/Bytes.vo theories/Layout/Syntax.vo theories/Gen/Funs.vo theories/Layout/Sem.vo theories/Layout/SpecTheory.vo theories/Layout/Spec.vo theories/Gen/Tables.vo theories/Proofs/C03Proof.vo
 theories/Properties/C03.vio: theories/Properties/C03.v theories/Base/Bytes.vio theories/Layout/Syntax.vio theories/Gen/Funs.vio theories/Layout/Sem.vio theories/Layout/SpecTheory.vio theories/Layout/Spec.vio theories/Gen/Tables.vio theories/Proofs/C03Proof.vio
 theories/Properties/C03.vos theories/Properties/C03.vok theories/Properties/C03.required_vos: theories/Properties/C03.v theories/Base/Bytes.vos theories/Layout/Syntax.vos theories/Gen/Funs.vos theories/Layout/Sem.vos theories/Layout/SpecTheory.vos theories/Layout/Spec.vos theories/Gen/Tables.vos theories/Proofs/C03Proof.vos
+theories/Properties/C09.vo theories/Properties/C09.glob theories/Properties/C09.v.beautified theories/Properties/C09.required_vo: theories/Properties/C09.v theories/Gen/Funs.vo theories/Proofs/C20Proof.vo
+theories/Properties/C09.vio: theories/Properties/C09.v theories/Gen/Funs.vio theories/Proofs/C20Proof.vio
+theories/Properties/C09.vos theories/Properties/C09.vok theories/Properties/C09.required_vos: theories/Properties/C09.v theories/Gen/Funs.vos theories/Proofs/C20Proof.vos
+theories/Properties/C20.vo theories/Properties/C20.glob theories/Properties/C20.v.beautified theories/Properties/C20.required_vo: theories/Properties/C20.v theories/Gen/Funs.vo theories/Model/VersionText.vo theories/Proofs/C20Proof.vo
+theories/Properties/C20.vio: theories/Properties/C20.v theories/Gen/Funs.vio theories/Model/VersionText.vio theories/Proofs/C20Proof.vio
+theories/Properties/C20.vos theories/Properties/C20.vok theories/Properties/C20.required_vos: theories/Properties/C20.v theories/Gen/Funs.vos theories/Model/VersionText.vos theories/Proofs/C20Proof.vos
